@@ -260,6 +260,21 @@ func newWorldWithState(b *runner.Batch, n int, set world.Set, containers int, sn
 					}
 				}
 			}
+			// named containers: the alias records are data of another shape beside the containers and the owner index, and a
+			// migration that tells entries apart by their lengths meets domains of ten lengths out of 11..40 bytes in every world (all
+			// of them over three batches) (seeded change C16-12: "key = owner + value" also true of the alias record of an 18-byte domain)
+			for j := 0; j < 10; j++ {
+				nameLen := 1 + (b.Index+3*j)%30
+				name := strings.Repeat("n", nameLen-1) + string(rune('a'+j))
+				if nameLen > 3 {
+					name = fmt.Sprintf("%c%d-", 'a'+j, b.Index%10) + name[3:]
+				}
+				blob := cblob(ownerID(e.users[j%2].ScriptHash()), 500+j+1000*b.Index)
+				tr := w.Invoke(A, w.H("container"), "putNamed", blob, bytes.Repeat([]byte{byte(j + 1)}, 64), e.ukeys[j%2].PublicKey().Bytes(), []byte{}, name, "")
+				if err := ok(tr, "container putNamed "+name); err != nil {
+					return err
+				}
+			}
 			return nil
 		},
 		func() error {
